@@ -11,6 +11,7 @@ import (
 	"github.com/prometheus/prometheus/discovery/targetgroup"
 
 	"kvassverif/core"
+	"kvassverif/sched"
 	"kvassverif/sidecarsim"
 
 	"tkestack.io/kvass/pkg/discovery"
@@ -324,7 +325,7 @@ func c17Bubble(tp *core.Tape, e *core.Env) (hist []string) {
 			} else if pr := w.Net.Pending(); len(pr) > 0 {
 				w.Net.Release(pr[0], "connect", nil)
 			} else {
-				time.Sleep(time.Second)
+				sched.Sleep(time.Second)
 			}
 		}
 		e.Undecided("operation %s did not finish", name)
@@ -452,10 +453,10 @@ func c17Bubble(tp *core.Tape, e *core.Env) (hist []string) {
 			})
 		}
 		if waitInit != nil || tp.Bool("advance", 1, 8) {
-			add(1, func() { time.Sleep(time.Second); logf("advance 1s") })
+			add(1, func() { sched.Sleep(time.Second); logf("advance 1s") })
 		}
 		if len(cs) == 0 {
-			time.Sleep(time.Second)
+			sched.Sleep(time.Second)
 			continue
 		}
 		ws := make([]int, len(cs))
@@ -485,7 +486,7 @@ func c17Bubble(tp *core.Tape, e *core.Env) (hist []string) {
 		if y := w.Sch.Pending(); len(y) > 0 {
 			w.Sch.Release(y[tp.Choose("drain_yield", len(y))])
 		} else if len(running) > 0 || len(delivered) > 0 {
-			time.Sleep(time.Second)
+			sched.Sleep(time.Second)
 		}
 	}
 	if len(running) > 0 || len(delivered) > 0 {
